@@ -322,84 +322,7 @@ func c17R2(c *Check, validate, merge, defaults, oidcURLs *ssa.Function) {
 		c.Obl(stored, "C17.R2", "merge/stored-as-oidc", P.Pos(mergeCall.Pos()), "the merged configuration replaces the filter's type as Filter_Oidc",
 			"the merged configuration is not stored back into the filter as its OIDC configuration")
 	}
-	// ---- openid scope
-	ff := FactsOf(defaults)
-	cfgParam := defaults.Params[0]
-	for i, r := range returnsOf(defaults) {
-		fs := ff.At(r)
-		ok := false
-		why := "return without the openid scope being present (neither found in the list nor appended)"
-		// found: fact elem == "openid"
-		eq, known := fs.cmp(func(a, b ssa.Value) bool {
-			s, isC := constString(b)
-			return isC && s == "openid" && isString(a.Type())
-		})
-		if known && eq {
-			ok, why = true, "returns under the fact scope element == \"openid\""
-		}
-		// found: fact slices.Contains(scopes, "openid") (the library form of the search loop)
-		if !ok {
-			for cond, pol := range fs {
-				inner, neg := unwrapBool(cond)
-				call, _, isC := asCall(inner)
-				if !isC || pol == neg {
-					continue
-				}
-				callee := call.Common().StaticCallee()
-				if callee == nil || callee.Pkg == nil && callee.Origin() == nil {
-					continue
-				}
-				o := callee
-				if callee.Origin() != nil {
-					o = callee.Origin()
-				}
-				if o.Pkg == nil || o.Pkg.Pkg.Path() != "slices" || o.Name() != "Contains" || len(call.Common().Args) != 2 {
-					continue
-				}
-				fromCfg := false
-				for d := range dataDeps(call.Common().Args[0]) {
-					if gc, _, isG := asCall(d); isG && isCallTo(gc, idOIDCConfig+".GetScopes") && gc.Common().Args[0] == ssa.Value(cfgParam) {
-						fromCfg = true
-					}
-					if fa, isF := d.(*ssa.FieldAddr); isF && fieldAddrID(fa) == idOIDCConfig+".Scopes" && fa.X == ssa.Value(cfgParam) {
-						fromCfg = true
-					}
-				}
-				if gc, _, isG := asCall(call.Common().Args[0]); isG && isCallTo(gc, idOIDCConfig+".GetScopes") && gc.Common().Args[0] == ssa.Value(cfgParam) {
-					fromCfg = true
-				}
-				if s, isK := constString(call.Common().Args[1]); isK && s == "openid" && fromCfg {
-					ok, why = true, "returns under the fact slices.Contains(scopes, \"openid\")"
-				}
-			}
-		}
-		// appended: a store to config.Scopes of append(..., "openid") precedes on all paths
-		if !ok {
-			isAppendStore := func(ins ssa.Instruction) bool {
-				st, isS := ins.(*ssa.Store)
-				if !isS {
-					return false
-				}
-				fa, isF := st.Addr.(*ssa.FieldAddr)
-				if !isF || fieldAddrID(fa) != idOIDCConfig+".Scopes" || fa.X != cfgParam {
-					return false
-				}
-				for d := range dataDeps(st.Val) {
-					if s, isC := constString(d); isC && s == "openid" {
-						return true
-					}
-				}
-				return false
-			}
-			// the last store before this return on every path must be an append store: approximate by
-			// requiring that the return is not reachable from entry without passing an append store placed
-			// after the search loop (the loop's early return is the `found` case)
-			if mustPassBefore(defaults, r, isAppendStore) {
-				ok, why = true, "every path to this return appends \"openid\" to the scopes"
-			}
-		}
-		c.Obl(ok, "C17.R2", fmt.Sprintf("openid-scope/return#%d", i+1), P.Pos(instrPos(r)), why, why)
-	}
+	openidScopeRule(c, "C17.R2", defaults)
 	// applied to every OIDC filter: the call is inside the merge loops, and no path from the loop body
 	// start to the next iteration for an OIDC filter avoids it. Checked as: the defaults call is not
 	// skippable once GetOidc() != nil is known — i.e. from the block where that fact first holds, the
@@ -876,4 +799,88 @@ func returnsMayCarry(fn *ssa.Function, g *ssa.Global, depth int) (bool, token.Po
 		}
 	}
 	return false, token.NoPos
+}
+
+// openidScopeRule: every return of the scope-defaulting helper happens with the exact scope "openid" present —
+// found by string equality in the configured list, or appended. Filed under C17.R2 and C13.R2 (the scope
+// parameter of the authorization request carries openid).
+func openidScopeRule(c *Check, rule string, defaults *ssa.Function) {
+	P := c.P
+	ff := FactsOf(defaults)
+	cfgParam := defaults.Params[0]
+	for i, r := range returnsOf(defaults) {
+		fs := ff.At(r)
+		ok := false
+		why := "return without the openid scope being present (neither found in the list nor appended)"
+		// found: fact elem == "openid"
+		eq, known := fs.cmp(func(a, b ssa.Value) bool {
+			s, isC := constString(b)
+			return isC && s == "openid" && isString(a.Type())
+		})
+		if known && eq {
+			ok, why = true, "returns under the fact scope element == \"openid\""
+		}
+		// found: fact slices.Contains(scopes, "openid") (the library form of the search loop)
+		if !ok {
+			for cond, pol := range fs {
+				inner, neg := unwrapBool(cond)
+				call, _, isC := asCall(inner)
+				if !isC || pol == neg {
+					continue
+				}
+				callee := call.Common().StaticCallee()
+				if callee == nil || callee.Pkg == nil && callee.Origin() == nil {
+					continue
+				}
+				o := callee
+				if callee.Origin() != nil {
+					o = callee.Origin()
+				}
+				if o.Pkg == nil || o.Pkg.Pkg.Path() != "slices" || o.Name() != "Contains" || len(call.Common().Args) != 2 {
+					continue
+				}
+				fromCfg := false
+				for d := range dataDeps(call.Common().Args[0]) {
+					if gc, _, isG := asCall(d); isG && isCallTo(gc, idOIDCConfig+".GetScopes") && gc.Common().Args[0] == ssa.Value(cfgParam) {
+						fromCfg = true
+					}
+					if fa, isF := d.(*ssa.FieldAddr); isF && fieldAddrID(fa) == idOIDCConfig+".Scopes" && fa.X == ssa.Value(cfgParam) {
+						fromCfg = true
+					}
+				}
+				if gc, _, isG := asCall(call.Common().Args[0]); isG && isCallTo(gc, idOIDCConfig+".GetScopes") && gc.Common().Args[0] == ssa.Value(cfgParam) {
+					fromCfg = true
+				}
+				if s, isK := constString(call.Common().Args[1]); isK && s == "openid" && fromCfg {
+					ok, why = true, "returns under the fact slices.Contains(scopes, \"openid\")"
+				}
+			}
+		}
+		// appended: a store to config.Scopes of append(..., "openid") precedes on all paths
+		if !ok {
+			isAppendStore := func(ins ssa.Instruction) bool {
+				st, isS := ins.(*ssa.Store)
+				if !isS {
+					return false
+				}
+				fa, isF := st.Addr.(*ssa.FieldAddr)
+				if !isF || fieldAddrID(fa) != idOIDCConfig+".Scopes" || fa.X != cfgParam {
+					return false
+				}
+				for d := range dataDeps(st.Val) {
+					if s, isC := constString(d); isC && s == "openid" {
+						return true
+					}
+				}
+				return false
+			}
+			// the last store before this return on every path must be an append store: approximate by
+			// requiring that the return is not reachable from entry without passing an append store placed
+			// after the search loop (the loop's early return is the `found` case)
+			if mustPassBefore(defaults, r, isAppendStore) {
+				ok, why = true, "every path to this return appends \"openid\" to the scopes"
+			}
+		}
+		c.Obl(ok, rule, fmt.Sprintf("openid-scope/return#%d", i+1), P.Pos(instrPos(r)), why, why)
+	}
 }
